@@ -1,10 +1,10 @@
 (* Pin of a generated definition: written by `vh gen --pin-dir` from the sources at the
    time the models and proofs were written; re-proved by reflexivity against the
    regenerated Gen/*.v on every run. *)
-From Verif Require Import Base.Str Gen.Lits.
+From Verif Require Import Base.Str Gen.Consts.
 Open Scope N_scope.
 
-(* internal/updater/updater.go func getLatestVersionFromGitHub:  *)
-Lemma pinned : Gen.Lits.lits_internal_updater_updater_getLatestVersionFromGitHub =
-  [].
+(* internal/updater/updater.go Updater: UpdateTo on the configured updater (validator runs) *)
+Lemma pinned : Gen.Consts.self_update_validates =
+  true.
 Proof. reflexivity. Qed.
